@@ -28,9 +28,9 @@ MANIFEST = dict(
     technique="symbolic execution of the real code on bit-vector/float64 terms + SMT (QF_BVFP z3 + cvc5; QF_NRA/LIA z3); replay gate",
 )
 
-SECONDS_QUICK = [0, 3600 * 24 * 365 * 116 + 12345, -1, 2 ** 31, -86400 * 365 * 30 - 7]
+SECONDS_QUICK = [0, 3600 * 24 * 365 * 116 + 12345, -1, 2 ** 31, -86400 * 365 * 30 - 7, 10 ** 10 + 1, -(10 ** 10) - 3]
 SECONDS_THOROUGH = SECONDS_QUICK + [1, 59, 2 ** 31 - 1, -2 ** 31, 2 ** 32 + 5, 3786825600, -2082844800, 86399, 4102444800,
-                                    -1000000007, 10 ** 10]
+                                    -1000000007, 10 ** 10, 2 * 10 ** 10 + 7, 4 * 10 ** 10]
 
 META = dict(
     level='other',
